@@ -80,6 +80,8 @@ type Ctx struct {
 	reads    []readEvent
 	prefer   []*Term
 	splits   []*Term // boolean terms worth a case split (append in place / reallocated)
+	forceInline bool // unit flag inlinecalls: callee contracts are ignored, bodies inlined
+	defaultUnroll int // unit flag unrollcalls N: loops of inlined callees are unrolled N times (with unwinding assertion)
 	ifSplits []*Term // branch conditions of the verified function (case split candidates when they occur in a goal)
 	oldBinds map[int]Val
 	sliceTerms map[*Term]bool
@@ -738,6 +740,13 @@ func countPreds(to, from *ssa.BasicBlock) int {
 // ---- loops ----
 
 func (fr *Frame) loopSpec(li *LoopInfo) *LoopSpec {
+	c := fr.ctx
+	if c.forceInline && fr.fn != c.target {
+		if c.defaultUnroll > 0 {
+			return &LoopSpec{N: li.ordinal, Unroll: c.defaultUnroll}
+		}
+		return nil
+	}
 	if fr.contract == nil {
 		return nil
 	}
@@ -1225,7 +1234,14 @@ func (fr *Frame) runLoopUnrolled(li *LoopInfo, k int) {
 				cs = append(cs, r.cond)
 			}
 			fr.curReach = TTrue
+			// the unwinding assertion is an obligation even when the loop is unrolled inside specification code:
+			// a truncated unrolling would silently drop behaviours
+			savedSpec, savedQ := fr.spec, fr.inQuant
+			if !fr.inQuant {
+				fr.spec = false
+			}
 			fr.ctx.oblige(fr, fmt.Sprintf("loop%d-unwind", li.ordinal), fmt.Sprintf("%d", k), Not(Or(cs...)), h.Instrs[0].Pos())
+			fr.spec, fr.inQuant = savedSpec, savedQ
 		}
 	}
 	for b := range li.blocks {
